@@ -155,7 +155,10 @@ class Gen:
                                 sections.append(cur)
                             elif dd and dd[0] == 'before':
                                 # //@ before <callee> <k>: ghost code in front of the statement holding the k-th call of <callee>
-                                cur = {'sec': 'before', 'k': int(dd[2]), 'callee': dd[1], 'lines': [], 'uline': j + 1}
+                                # `of=<n>`: the number of call sites of <callee> the function had when the ghost code was
+                                # written; another count means the k-th call may be a different statement now: lost anchor
+                                cur = {'sec': 'before', 'k': int(dd[2]), 'callee': dd[1], 'lines': [], 'uline': j + 1,
+                                       'of': int(_opts(dd[3:]).get('of', 0))}
                                 sections.append(cur)
                             else:
                                 raise SpecError('%s:%d: unexpected directive inside fn: %s' % (self.unit_path, j + 1, t))
@@ -511,6 +514,9 @@ class Gen:
                 off = loops[k - 1]['close'] if kind == 'loopend' else loops[k - 1]['open'] + (1 if kind == 'loopbody' else 0)
             elif kind == 'before':
                 calls = [m.start() for m in re.finditer(r'\b%s\s*\(' % re.escape(sec['callee']), masked[body_open:body_close])]
+                if sec.get('of') and len(calls) != sec['of'] and sec['k'] <= len(calls):
+                    raise rsx.LostAnchor('%s: %s has %d call(s) of %s, the ghost code in front of call %d was written for %d' % (
+                        rel, qual, len(calls), sec['callee'], sec['k'], sec['of']))
                 if sec['k'] < 1 or sec['k'] > len(calls):
                     # the call the ghost code was written for is gone: its assertions are dropped (recorded); the
                     # function's own contract is still checked
@@ -644,7 +650,10 @@ class Gen:
                 mi = mm
             if mi is None:
                 continue
-            bo = rsx.first_open_brace(masked, k)
+            # the block the `if` guards: searched from the `if` keyword (the identifier may sit inside parentheses)
+            bo = rsx.first_open_brace(masked, seg_start + mi.start())
+            if bo < 0:
+                raise rsx.LostAnchor('%s: cannot find the block guarded by the `if` on %s (guardcensus)' % (rel, ident))
             bc = rsx.match_close(masked, bo)
             block = masked[bo + 1:bc]
             line = masked.count('\n', 0, k) + 1
